@@ -168,6 +168,7 @@ struct World
 
 extern World* g_world;
 extern std::string g_trace_path;
+extern bool g_muted;   // set while the world is torn down: what destructors send is not part of the trace
 
 } // namespace simdrv
 
